@@ -1,11 +1,11 @@
-\* thorough: <= 3 tracks x <= 4 events, ticks <<0,0,1,1>>, channel message / meta
+\* quick: 2 tracks x <= 3 events, ticks <<0,0,1>>, channel message / meta / sysex (optional sends)
 \* atomic Player actions + ghost acceptor: stable merge, exactly once, no meta, no deadlock, acceptor complete
 CONSTANTS
-  NT = 3
-  NE = 4
+  NT = 2
+  NE = 3
   MaxNow = 1
-  Kinds <- KindsAM
-  TimePats <- Pats4q
+  Kinds <- KindsNoB
+  TimePats <- Pats3one
   Sels <- SelAll
   PortMaps <- PMmixed
 INIT Init
